@@ -199,12 +199,12 @@ impl Value {
         }
     }
 
-    /// Returns the length of a `String` or `Array` `Value`.
+    /// Returns the length of a `String` (in characters) or `Array` `Value`.
     /// `Boolean` and `Number` have a length of 0.
     #[must_use]
     pub fn len(&self) -> usize {
         match self {
-            Value::String(v) => v.len(),
+            Value::String(v) => v.chars().count(),
             Value::Array(v) => v.len(),
             _ => 0,
         }
